@@ -1,5 +1,7 @@
 package main
 
+import "gtverif/internal/gal"
+
 // Fixed corpus: the DESIGN §5 witness and the shapes found while building the check.
 
 func m(name string, ps []gpar, rs []gpar) gmeth { return gmeth{Name: name, Ps: ps, Rs: rs} }
@@ -81,5 +83,14 @@ func corpus() []*prog {
 	p.Structs = []gstruct{{Name: "Original",
 		Embeds:  []gembed{{T: named(pPlain, "E"), Ptr: true}, {T: named(pPlain, "E2")}, {T: named(pOdd, "OddI")}},
 		Methods: []gmeth{m("Plain", nil, nil)}}}
+
+	// c9-c11: the same method name with different signatures under three or more embedded fields
+	// at different depths (c9 = Session{Conn; Reader; Writer}: Close at depth 1, 2, 2)
+	out = append(out,
+		embedNameProgram(gal.NewRand(9), "c9", "corpus", map[string][]int{"Close": {1, 2, 2}}),
+		embedNameProgram(gal.NewRand(10), "c10", "corpus", map[string][]int{"Close": {2, 2, 1}, "Get": {1, 1, 2}, "foo": {2, 0, 2}}),
+		embedNameProgram(gal.NewRand(11), "c11", "corpus", map[string][]int{"Close": {2, 1, 2, 2, 2}, "Run": {1, 2, 1, 2, 1}}))
+	// c7, c8: one method per regression-prone shape (see shapeProgram), fixed seeds
+	out = append(out, shapeProgram(gal.NewRand(7), "c7", "corpus"), shapeProgram(gal.NewRand(8), "c8", "corpus"))
 	return out
 }
